@@ -298,6 +298,12 @@ def firstIfaceStep : Act (Step Unit) := fun s =>
       if s.cfg.errMismatch then (.error .err, s) else (.ok .again, s)
     else (.ok (.done ()), s)
 
+/-- firstInterface: blocks other than interface descriptions and packets -/
+def fiOther (t : Nat) : Prog Unit :=
+  if t = ngBlockTypeDecryptionSecrets then readDSB
+  else if t = ngBlockTypeNameResolution then readNRB
+  else pure ()
+
 /-- firstInterface -/
 def firstInterface : Prog Unit :=
   Prog.iter (do
@@ -310,9 +316,7 @@ def firstInterface : Prog Unit :=
     else if t = ngBlockTypePacket ∨ t = ngBlockTypeEnhancedPacket ∨ t = ngBlockTypeSimplePacket ∨ t = ngBlockTypeInterfaceStatistics then
       failM .err
     else
-      if t = ngBlockTypeDecryptionSecrets then readDSB
-      else if t = ngBlockTypeNameResolution then readNRB
-      else pure ()
+      fiOther t
       discardBlock
       pure .again)
 
@@ -413,48 +417,66 @@ def hdrFinishStep : Act HdrKind := fun s =>
         else (.ok (.take s.ci i.linkType i.snaplen), s)
       else (.ok (.take s.ci i.linkType i.snaplen), s)
 
+/-- readPacketHeader, the `switch r.currentBlock.typ` after readBlock: `true` = a packet header was parsed
+    (`goto FIND_PACKET` … `break FIND_PACKET`) -/
+def pktBlockBody (t : Nat) : Prog Bool :=
+  if t = ngBlockTypeEnhancedPacket ∨ t = ngBlockTypePacket then do
+    let h ← rd 20
+    Prog.act (pktHeadStep (t = ngBlockTypeEnhancedPacket) h)
+    pure true
+  else if t = ngBlockTypeSimplePacket then do
+    let h ← rd 4
+    Prog.act (spbHeadStep h)
+    pure true
+  else if t = ngBlockTypeInterfaceDescriptor then do readIDB; pure false
+  else if t = ngBlockTypeInterfaceStatistics then do readISB; pure false
+  else if t = ngBlockTypeSectionHeader then do readSectionHeader; pure false
+  else if t = ngBlockTypeNameResolution then do readNRB; pure false
+  else do discardBlock; pure false
+
+/-- readPacketHeader, after the switch -/
+def hdrTail (found : Bool) : Prog (Step (CapInfo × Nat × Nat)) :=
+  if !found then pure .again
+  else do
+    let k ← Prog.act hdrFinishStep
+    match k with
+    | .take ci lt snap => pure (.done (ci, lt, snap))
+    | .skipIt => do discardBlock; pure .again
+    | .skipErr => do discardBlock; failM .err
+
 /-- readPacketHeader; returns r.ci, the ancillary link type and the snap length of the packet's interface -/
 def readPacketHeader : Prog (CapInfo × Nat × Nat) :=
   Prog.iter (do
     readBlock
     let s ← getS
-    let t := s.blkTyp
-    let found : Bool ←
-      if t = ngBlockTypeEnhancedPacket ∨ t = ngBlockTypePacket then do
-        let h ← rd 20
-        Prog.act (pktHeadStep (t = ngBlockTypeEnhancedPacket) h)
-        pure true
-      else if t = ngBlockTypeSimplePacket then do
-        let h ← rd 4
-        Prog.act (spbHeadStep h)
-        pure true
-      else if t = ngBlockTypeInterfaceDescriptor then do readIDB; pure false
-      else if t = ngBlockTypeInterfaceStatistics then do readISB; pure false
-      else if t = ngBlockTypeSectionHeader then do readSectionHeader; pure false
-      else if t = ngBlockTypeNameResolution then do readNRB; pure false
-      else do discardBlock; pure false
-    if !found then pure .again
-    else
-      let k ← Prog.act hdrFinishStep
-      match k with
-      | .take ci lt snap => pure (.done (ci, lt, snap))
-      | .skipIt => do discardBlock; pure .again
-      | .skipErr => do discardBlock; failM .err)
+    let found ← pktBlockBody s.blkTyp
+    hdrTail found)
+
+/-- `if padding > 0 { r.discard(padding) }` -/
+def discardPad (padding : Nat) : Prog Unit := if padding > 0 then discard padding else pure ()
+
+/-- readPacketOptions is only called for enhanced packet blocks -/
+def pktOptsP : Prog Unit := do
+  let s ← getS
+  if s.blkTyp = ngBlockTypeEnhancedPacket then optLoop pktHandle else pure ()
+
+/-- ReadPacketDataWithOptions / ZeroCopyReadPacketDataWithOptions after readPacketHeader returned `ci`, the link type and
+    the snap length of the packet's interface: data, padding, options, rest of the block -/
+def pktRest (ci : CapInfo) (lt snap : Nat) : Prog Pkt := do
+  let data ← Prog.io (.rdData ci.caplen snap)
+  modS fun s => { s with blkLen := sub32 s.blkLen ci.caplen }
+  discardPad ((4 - ci.caplen % 4) % 4)
+  modS fun s => { s with curOpts := {} }
+  pktOptsP
+  discardBlock
+  let s ← getS
+  pure { ci := ci, ancil := if s.cfg.mixed then some lt else none, data := data, opts := s.curOpts }
 
 /-- ReadPacketDataWithOptions / ZeroCopyReadPacketDataWithOptions: the two differ only in where the
     data bytes are stored (see PcapNgMem.lean), which the `data` event describes. -/
 def readPacketP : Prog Pkt := do
-  let (ci, lt, snap) ← readPacketHeader
-  let data ← Prog.io (.rdData ci.caplen snap)
-  modS fun s => { s with blkLen := sub32 s.blkLen ci.caplen }
-  let padding := (4 - ci.caplen % 4) % 4
-  if padding > 0 then discard padding else pure ()
-  modS fun s => { s with curOpts := {} }
-  let s ← getS
-  if s.blkTyp = ngBlockTypeEnhancedPacket then optLoop pktHandle else pure ()
-  discardBlock
-  let s ← getS
-  pure { ci := ci, ancil := if s.cfg.mixed then some lt else none, data := data, opts := s.curOpts }
+  let r ← readPacketHeader
+  pktRest r.1 r.2.1 r.2.2
 
 /-- NewNgReader after the Peek(2): the first block must be a section header -/
 def openP : Prog Unit := do
